@@ -29,22 +29,6 @@ Proof.
   intros. constructor; simpl; intros; try discriminate; try contradiction; auto.
 Qed.
 
-Lemma in_remove' : forall (l : list nat) x y, In x (remove Nat.eq_dec y l) <-> In x l /\ x <> y.
-Proof.
-  intros. split.
-  - intros H. apply in_remove in H. auto.
-  - intros [H1 H2]. apply in_in_remove; auto.
-Qed.
-
-(** every step leaves the thread count and the other threads alone *)
-Lemma step_frame : forall W s t s', step W s t = Some s' ->
-  t < st_n s /\ st_n s' = st_n s /\ (forall t', t' <> t -> st_thr s' t' = st_thr s t').
-Proof.
-  intros W s t s' H. step_inv H; apply ltb_lt' in Hlt.
-  all: try (destruct (chk_eq t cs s) as [-> | ->]).
-  all: norm; split; [assumption|split; [reflexivity|]]; intros t' Hne; repeat rewrite upd_other by assumption; reflexivity.
-Qed.
-
 (** what a step does to the lock and to the moving thread's membership in the two sections *)
 Inductive lock_eff (s : state) (t : tid) (s' : state) : Prop :=
 | LE_none : st_writer s' = st_writer s -> st_readers s' = st_readers s ->
@@ -62,7 +46,7 @@ Inductive lock_eff (s : state) (t : tid) (s' : state) : Prop :=
 Lemma step_lock_eff : forall W s t s', step W s t = Some s' -> lock_eff s t s'.
 Proof.
   intros W s t s' H. step_inv H.
-  all: try (destruct (chk_eq t cs s) as [-> | ->]).
+  all: unfold pcof.
   all: first
     [ apply LE_none; unfold pcof; self; try rewrite Hpc; reflexivity
     | apply LE_rlock; unfold pcof; self; try rewrite Hpc; solve [reflexivity | assumption]
